@@ -27,4 +27,6 @@ def instances(tier):
 def scenario(c, inst):
     if inst["kind"] == "handle":
         return C7.handle_scenario(c, inst, {"C08"})
+    if inst["kind"] == "e2e":
+        return EC.scenario_e2e(c, inst, {"C08"})
     return EC.scenario(c, inst, {"C08"})
